@@ -218,7 +218,71 @@ def canon_block(stmts):
     return out or [ast.Pass()]
 
 
+def match_to_if(s):
+    """`match` on a side-effect-free subject with value / singleton / or /
+    wildcard patterns == the if/elif chain comparing the subject"""
+    subj = s.subject
+    if any(isinstance(n, (ast.Call, ast.Await, ast.Subscript))
+           for n in ast.walk(subj)):
+        return None
+
+    def cond(pat):
+        if isinstance(pat, ast.MatchValue):
+            return ast.Compare(left=subj, ops=[ast.Eq()],
+                               comparators=[pat.value])
+        if isinstance(pat, ast.MatchSingleton):
+            return ast.Compare(left=subj, ops=[ast.Is()],
+                               comparators=[ast.Constant(pat.value)])
+        if isinstance(pat, ast.MatchClass) and not pat.patterns and \
+                not pat.kwd_patterns:
+            return ast.Call(func=ast.Name(id='isinstance', ctx=ast.Load()),
+                            args=[subj, pat.cls], keywords=[])
+        if isinstance(pat, ast.MatchOr):
+            parts = [cond(q) for q in pat.patterns]
+            if any(q is None or q is True for q in parts):
+                return None
+            return ast.BoolOp(op=ast.Or(), values=parts)
+        if isinstance(pat, ast.MatchAs) and pat.pattern is None and \
+                pat.name is None:
+            return True
+        return None
+    head = tail = None
+    for c in s.cases:
+        t = cond(c.pattern)
+        if t is None:
+            return None
+        if c.guard is not None:
+            t = c.guard if t is True else ast.BoolOp(op=ast.And(),
+                                                     values=[t, c.guard])
+        if t is True:
+            if tail is None:
+                return list(c.body)
+            tail.orelse = list(c.body)
+            return head
+        node = ast.If(test=t, body=list(c.body), orelse=[])
+        if head is None:
+            head = node
+        else:
+            tail.orelse = [node]
+        tail = node
+    return head
+
+
 def canon_stmt(s):
+    if isinstance(s, ast.With):
+        from .sym import suppress_types
+        sup = suppress_types(s)
+        if sup is not None:
+            return canon_stmt(ast.Try(
+                body=list(s.body), handlers=[ast.ExceptHandler(
+                    type=sup, name=None, body=[ast.Pass()])], orelse=[],
+                finalbody=[]))
+    if isinstance(s, ast.Match):
+        r = match_to_if(s)
+        if r is not None:
+            if isinstance(r, list):
+                return canon_block(r)
+            return canon_stmt(r)
     if isinstance(s, (ast.FunctionDef, ast.ClassDef)):
         s.body = canon_block(s.body)
         return s
